@@ -232,16 +232,23 @@ func (p *RedisProtocol) Read() (packet *RedisPacket, err error) {
 					}
 				}
 				if len(array) > 3 {
-					packet.Value = fmt.Sprintf("[%s", packet.Value)
+					// built in one buffer: re-formatting the whole value for every
+					// element made the cost quadratic in the number of elements
+					var sb strings.Builder
+					sb.WriteString("[")
+					sb.WriteString(packet.Value)
 					for _, item := range array[3:] {
 						switch j := item.(type) {
 						case []uint8:
-							packet.Value = fmt.Sprintf("%s, %s", packet.Value, j)
+							sb.WriteString(", ")
+							sb.Write(j)
 						case int64:
-							packet.Value = fmt.Sprintf("%s, %d", packet.Value, j)
+							sb.WriteString(", ")
+							sb.WriteString(strconv.FormatInt(j, 10))
 						}
 					}
-					packet.Value = fmt.Sprintf("%s]", packet.Value)
+					sb.WriteString("]")
+					packet.Value = sb.String()
 				}
 			default:
 				msg := fmt.Sprintf("Unrecognized element in Redis array: %v", reflect.TypeOf(array[0]))
